@@ -196,10 +196,12 @@ def ak_object(entries):
 #   cb_key: [[user, keyname]]  cb_ca: [[user, keyname]]
 #   pw_supported, pk_cb_supported: bool
 #   async: {begin, pw, key, ca, kbd: bool}
+#   installs: {user: bool}             does begin_auth(user) call set_authorized_keys at all (absent = True)?
+#                                      False = like examples/simple_keyed_server.py for a user without a key file
 
 def default_world():
     return dict(needs_no_auth=['guest'], ak={}, ak_server=None, pw=[], chpw=[], kbd_cfg='no', kbd_chal={},
-                kbd_resp=[], cb_key=[], cb_ca=[], pw_supported=True, pk_cb_supported=False,
+                kbd_resp=[], cb_key=[], cb_ca=[], pw_supported=True, pk_cb_supported=False, installs={},
                 **{'async': dict(begin=False, pw=False, key=False, ca=False, kbd=False)})
 
 
@@ -230,6 +232,12 @@ def kbd_mode(world):
     if world['kbd_cfg'] == 'ni' and world['pw_supported']:
         return 'pw'
     return 'off'
+
+
+def key_src(world, U):
+    """whose key set is in force after reload_config + begin_auth(U): U's if the application installs one,
+    else the configured one (None)"""
+    return U if world.get('installs', {}).get(U, True) else None
 
 
 def w_ak(world, src):
@@ -443,7 +451,10 @@ def spec_grants_via(world, sid, U, D, p):
     out = []
     if U in world['needs_no_auth']:
         out.append((kopts_of_entry(None), None))
-    for src in ([U, None] if U == '' else [U]):
+    srcs = [key_src(world, U)]
+    if U == '' and None not in srcs:
+        srcs.append(None)
+    for src in srcs:
         try:
             g = spec_eval_request(world, sid, src, U, p)
         except ValueError:
@@ -469,7 +480,12 @@ def enforce(ko, co):
     fwd = (not ko['no_fwd']) and (co['fwd'] if co is not None else True)
     if ko['permitopen']:
         fwd = fwd and ([PROBE_HOST, PROBE_PORT] in ko['permitopen'] or [PROBE_HOST, None] in ko['permitopen'])
-    return (forced, pty, fwd)
+    starts = tuple(('exec', forced) if forced is not None else r for r in PROBE_STARTS)
+    return (forced, pty, fwd, starts)
+
+
+# what the four probe channels ask for
+PROBE_STARTS = (('exec', 'probe'), ('shell',), ('subsys', 'other'), ('subsys', 'sftp'))
 
 
 # ---------------------------------------------------------------------------------------------------
@@ -689,6 +705,10 @@ def make_server_class(rt):
             rt.log.append(('shell',))
             return True
 
+        def subsystem_requested(self, subsystem):
+            rt.log.append(('subsys', subsystem))
+            return True
+
     class Srv(asyncssh.SSHServer):
         def connection_made(self, conn):
             rt.conn = conn
@@ -698,7 +718,8 @@ def make_server_class(rt):
 
         def begin_auth(self, username):
             rt.log.append(('begin', username))
-            rt.conn.set_authorized_keys(rt.ak_objs.get(username))
+            if world.get('installs', {}).get(username, True):
+                rt.conn.set_authorized_keys(rt.ak_objs.get(username))
             return rt.answer('begin', username not in world['needs_no_auth'])
 
         def auth_completed(self):
@@ -998,7 +1019,32 @@ async def probe_restrictions(mini, link, rt):
     got = []
     await link.until(lambda: got.append(find((91, 92, 1), pos)) or got[-1] is not None or link.closed, 'direct-tcpip reply')
     fwd = any(e[0] == 'fwd' for e in rt.log[mark:])
-    return (forced, pty, fwd)
+    pos = (got[-1][0] + 1) if got[-1] else pos
+    # every way a session can be started, each on a channel of its own: what is the session object told?
+    starts = [('exec', cmds[0]) if cmds else ('none',)]
+    for k, req in enumerate(PROBE_STARTS[1:]):
+        mini.send(M._msg(M.MSG_CHANNEL_OPEN, M.sstr('session'), M.u32(50 + k), M.u32(1 << 20), M.u32(32768)))
+        got = []
+        await link.until(lambda: got.append(find((91, 92, 1), pos)) or got[-1] is not None or link.closed, 'session open')
+        hit = got[-1]
+        if hit is None or hit[1] != 91:
+            starts.append(('none',))
+            continue
+        r = M.Reader(hit[2], 1)
+        r.get_u32()
+        ch = r.get_u32()
+        pos = hit[0] + 1
+        m2 = len(rt.log)
+        if req[0] == 'shell':
+            mini.send(M._msg(M.MSG_CHANNEL_REQUEST, M.u32(ch), M.sstr('shell'), b'\1'))
+        else:
+            mini.send(M._msg(M.MSG_CHANNEL_REQUEST, M.u32(ch), M.sstr('subsystem'), b'\1', M.sstr(req[1])))
+        got = []
+        await link.until(lambda: got.append(find((99, 100, 1), pos)) or got[-1] is not None or link.closed, 'start reply')
+        pos = (got[-1][0] + 1) if got[-1] else pos
+        ev = [e for e in rt.log[m2:] if e[0] in ('exec', 'shell', 'subsys')]
+        starts.append(tuple(ev[0]) if ev else ('none',))
+    return (forced, pty, fwd, tuple(starts))
 
 
 # ---------------------------------------------------------------------------------------------------
@@ -1061,7 +1107,8 @@ def c_tables(world, tb):
     for b, (kind, name) in sorted(tb.blobs.items()):
         blobs.append('(%s, %s)' % (hx(b), 'BKey %d' % p.kid[name] if kind == 'key' else 'BCert ' + c_cert(name)))
     a = world['async']
-    return ('(mkT %s %s %s %s %s %s %s %s %s %s %s %s %d %s %s %s (%s, %s, %s, %s, %s))' % (
+    noinst = sorted(u for u, v in world.get('installs', {}).items() if not v)
+    return ('(mkT %s %s %s %s %s %s %s %s %s %s %s %s %d %s %s %s (%s, %s, %s, %s, %s) %s)' % (
         clist(sorted(tb.prep.items()), lambda kv: '(%s, %s)' % (hx(kv[0]), copt(kv[1], ctext))),
         clist(sorted(tb.badutf8), hx),
         clist(world['needs_no_auth'], ctext),
@@ -1076,7 +1123,7 @@ def c_tables(world, tb):
         clist(tb.sigs, lambda e: '(%d, %s, %s)' % (e[0], hx(e[1]), hx(e[2]))),
         p.now, cbool(world['pw_supported']), {'yes': 'TYes', 'no': 'TNo', 'ni': 'TNotImpl'}[world['kbd_cfg']],
         cbool(world['pk_cb_supported']),
-        cbool(a['begin']), cbool(a['pw']), cbool(a['key']), cbool(a['ca']), cbool(a['kbd'])))
+        cbool(a['begin']), cbool(a['pw']), cbool(a['key']), cbool(a['ca']), cbool(a['kbd']), clist(noinst, ctext)))
 
 
 def c_reply(r):
@@ -1088,6 +1135,10 @@ def c_reply(r):
     if k == 'V':
         return '(RServed %d)' % r[1]
     return {'S': 'RSuccess', 'K': 'RPkOk', 'C': 'RChangeReq', 'U': 'RUnimpl', '?': 'RUnimpl'}[k]
+
+
+def c_start(r):
+    return 'SShell' if r[0] == 'shell' else ('SExec ' if r[0] == 'exec' else 'SSubsys ') + ctext(r[1])
 
 
 def c_case(fixed, world, res, granted_users):
@@ -1106,12 +1157,12 @@ def c_case(fixed, world, res, granted_users):
     n80 = sum(1 for r in res.replies if r == ('V', 80))
     n90 = sum(1 for r in res.replies if r == ('V', 90))
     enf = res.enforced
-    if enf is not None and len(enf) != 3:
+    if enf is not None and (len(enf) != 4 or any(x[0] == 'none' for x in enf[3])):
         enf = None
     obs = '(%s, %d, %d, %s, %s, %s, %s)' % (
         clist(auth_replies, c_reply), n80, n90, clist(res.completed_as, ctext), clist(res.begun, ctext),
         cbool(res.dead),
-        copt(enf, lambda e: '(%s, %s, %s)' % (copt(e[0], ctext), cbool(e[1]), cbool(e[2]))))
+        copt(enf, lambda e: '(%s, %s, %s, %s)' % (copt(e[0], ctext), cbool(e[1]), cbool(e[2]), clist(e[3], c_start))))
     gr = clist(granted_users, lambda ug: '(%s, %s)' % (ctext(ug[0]), cbool(ug[1])))
     return '(%s, %s, %s, %s, %s, %s, %s)' % (
         cbool(fixed), c_tables(world, res.tables), hx(res.sid), clist(ops, str),
